@@ -22,7 +22,7 @@ RULE = (
     "characters and the multi-character-uppercase letter sharp s; all strings over the set up to length "
     "3 (2 for large sets) plus 4 strings sampled from the AST and their one-character mutations); "
     "interegular_to_wfsa(p, charset)(s) > 0 <=> re.fullmatch(p, s); every state that can reach a final "
-    "state has arc + final mass 1, other states none; arc labels are single characters; non-trivial = "
+    "state has arc + final mass 1, every other state mass 0 or 1; arc labels are single characters; non-trivial = "
     "matching and non-matching strings both exist and the pattern has a negated class, dot, negated "
     "escape or (?i); distinct = SHA-1 of the case"
 )
@@ -185,8 +185,11 @@ def check(case, ctx):
         mass[q] = mass.get(q, 0.0) + w
     bad = [(A.names[q], mass.get(q, 0.0)) for q in range(A.n) if q in live and abs(mass.get(q, 0.0) - 1) > 1e-9]
     ctx.check("normalised|live", not bad, lambda: f"pattern {pat!r} charset {sorted(charset)!r}: live states with mass != 1: {bad[:3]}")
-    bad0 = [(A.names[q], mass[q]) for q in range(A.n) if q not in live and mass.get(q, 0.0) != 0]
-    ctx.check("normalised|dead", not bad0, lambda: f"pattern {pat!r}: states that cannot reach a final state carry mass: {bad0[:3]}")
+    # a state that cannot reach a final state *over this character set* may still carry its
+    # (locally normalised) mass, e.g. 'a\\W' over {a, b}: the statement only asks for local
+    # normalisation, so every state has mass one or no arcs at all
+    bad0 = [(A.names[q], mass[q]) for q in range(A.n) if q not in live and mass.get(q, 0.0) != 0 and abs(mass[q] - 1) > 1e-9]
+    ctx.check("normalised|other", not bad0, lambda: f"pattern {pat!r}: states with mass other than 0 or 1: {bad0[:3]}")
     multi = sorted({a for q, a, r, w in A.arcs if not (isinstance(a, str) and len(a) == 1)}, key=repr)
     ctx.check("labels|single_char", not multi, lambda: f"pattern {pat!r}: arc labels that are not single characters: {multi}")
     ctx.check("start|one", abs(sum(A.start.values()) - 1) <= 1e-12 if A.start else True, "initial weights do not sum to one")
